@@ -8,6 +8,7 @@ import (
 	"io/fs"
 	"os"
 	"path/filepath"
+	"strings"
 	"syscall"
 
 	"github.com/oklog/ulid/v2"
@@ -71,11 +72,51 @@ func New(root string) (partstore.PartStore, error) {
 	return bs, nil
 }
 
+const txBackupInfix = ".txbackup."
+
+// recoverTxBackups restores parts that a transaction moved aside but never
+// finished deleting. A pre-commit hook renames the part to
+// <part>.txbackup.<ulid> before the database commits; if the process dies
+// between that rename and the commit, the database rolls the transaction back
+// and still references the part, which would then exist only under its backup
+// name. A backup whose transaction did commit is restored as well; it is then
+// an unreferenced part that garbage collection removes.
+func (bs *filesystemPartStore) recoverTxBackups() error {
+	dirEntries, err := os.ReadDir(bs.root)
+	if err != nil {
+		return err
+	}
+	for _, dirEntry := range dirEntries {
+		backupName := dirEntry.Name()
+		idx := strings.Index(backupName, txBackupInfix)
+		if dirEntry.IsDir() || idx < 0 {
+			continue
+		}
+		partName := backupName[:idx]
+		if _, ok := bs.tryGetPartIdFromFilename(partName); !ok {
+			continue
+		}
+		partPath := filepath.Join(bs.root, partName)
+		if _, err := os.Stat(partPath); err == nil {
+			continue
+		} else if !errors.Is(err, fs.ErrNotExist) {
+			return err
+		}
+		if err := os.Rename(filepath.Join(bs.root, backupName), partPath); err != nil {
+			return err
+		}
+	}
+	return nil
+}
+
 func (bs *filesystemPartStore) Start(ctx context.Context) error {
 	if err := bs.ValidatedLifecycle.Start(ctx); err != nil {
 		return err
 	}
-	return bs.ensureRootDir()
+	if err := bs.ensureRootDir(); err != nil {
+		return err
+	}
+	return bs.recoverTxBackups()
 }
 
 func (bs *filesystemPartStore) PutPart(ctx context.Context, tx database.Tx, partId partstore.PartId, reader io.Reader) error {
@@ -99,7 +140,7 @@ func (bs *filesystemPartStore) PutPart(ctx context.Context, tx database.Tx, part
 			return err
 		}
 
-		backupName := filename + ".txbackup." + ulid.Make().String()
+		backupName := filename + txBackupInfix + ulid.Make().String()
 		backupCreated := false
 		published := false
 		tx.OnPreCommit(func(context.Context) error {
@@ -201,7 +242,7 @@ func (bs *filesystemPartStore) DeletePart(ctx context.Context, tx database.Tx, p
 
 	filename := bs.getFilename(partId)
 	if tx != nil {
-		backupName := filename + ".txbackup." + ulid.Make().String()
+		backupName := filename + txBackupInfix + ulid.Make().String()
 		backupCreated := false
 		tx.OnPreCommit(func(context.Context) error {
 			if err := os.Rename(filename, backupName); err == nil {
